@@ -1306,6 +1306,17 @@ def run(ck):
                        "coordinates within +-2^30 (coord+-1 cannot overflow int); interior limit >= 1",
                        "the ordering functors are strict weak orders; the update event is a function of (data, neighbors)",
                        "topInternal()/topExternal() on an empty grid are outside the contract and not called"]
+    ck.rule += ("; engine 2 (Discretization): scripts of addMotion / selectMotion (reseeded rng_) / score+updateCell / "
+                "removeMotion / countIteration / setBorderFraction / clear / getPlannerData over dimensions 0-3 (random mixes and "
+                "KPIECE-like churn); non-trivial if it selects >= 3 times and removes >= 2 stored motions")
+    ck.trusted += ["harness/discretization.cpp opens `private`/`protected` of Discretization.h/GridB.h/BinaryHeap.h for its own translation "
+                   "unit (grid_, heaps, size_, iteration_, rng_); rng_ is reseeded with setLocalSeed(seed) before each selectMotion",
+                   "the model side replays the two draws of selectMotion with the RNG model of C20 (OmplModel.Model.Rng); the oracle "
+                   "recomputes uniform01 with its own mt19937",
+                   "Discretization model: cell->data as a table by coordinate; the importance field is the grid cell's data (IEEE bits)"]
+    ck.assumptions += ["Discretization: a Motion* is added once; coordinates have `dim` entries; selectMotion is not called on an empty "
+                       "discretization; the score is changed only right before updateCell(); importances are not NaN (the functor is "
+                       "then a strict weak order)"]
     ck.lean_build(LEAN_TARGETS)
     ck.audit(roots=["Drv.Grid", "Drv.Discretization"])
     if ck.tier == "thorough" and ck.lean_ok:
@@ -1423,7 +1434,12 @@ MANIFEST = {
             "limit, every cell in exactly one of the two queues, external iff border, counts sum to size - for every protocol "
             "history by induction over the operation list, every dimension, bounds, limit, functor and update event), tied to the "
             "headers by line-by-line differential runs of the real GridB<int,..> against the compiled model, plus an oracle that "
-            "recomputes everything from the abstract set of present cells on the implementation's own outputs.",
+            "recomputes everything from the abstract set of present cells on the implementation's own outputs. Round 2: the main user "
+            "of GridB, Discretization<Motion> (KPIECE), is modelled on top of the grid model; theorems for every history of its "
+            "operations (it obeys the grid protocol; every stored motion sits in exactly the cell of its coordinate; no empty cell "
+            "stays; the GridB invariants and tops-are-best hold throughout; selectMotion returns a stored motion and reaches the top "
+            "of an empty queue only through the repaired topInternal fallback); the real template is driven in lock-step "
+            "(bit-exact doubles, heap layouts) with a bookkeeping oracle.",
     "note": "Trusted: Lean kernel, the three standard axioms, the hand-written model outside the scripts the correspondence explored, "
             "the harness, the reused C11 heap model. Histories follow the user protocol of KPIECE's Discretization; tops-are-minima "
             "is checked by the oracle and the correspondence (the heap-order theorems belong to C11).",
